@@ -119,8 +119,19 @@ fn build_rel(s: &RelSpec) -> Option<(Relation, Rel)> {
             if !archs.is_empty() {
                 b = b.architectures(archs.clone());
             }
-            for p in profiles {
-                b = b.add_profile(p.iter().map(|(n, s)| if *n { BuildProfile::Disabled(s.clone()) } else { BuildProfile::Enabled(s.clone()) }).collect());
+            let lists: Vec<Vec<BuildProfile>> = profiles.iter().map(|p| p.iter().map(|(n, s)| if *n { BuildProfile::Disabled(s.clone()) } else { BuildProfile::Enabled(s.clone()) }).collect()).collect();
+            // the three ways to give a builder its profile lists; `profiles` sets the lists, whatever was added before
+            match name.len() % 3 {
+                0 => {
+                    for l in lists {
+                        b = b.add_profile(l);
+                    }
+                }
+                1 => b = b.profiles(lists),
+                _ => {
+                    b = b.add_profile(vec![BuildProfile::Enabled("discarded".to_string())]);
+                    b = b.profiles(lists);
+                }
             }
             let m = Rel {
                 name: name.clone(),
@@ -1025,7 +1036,34 @@ impl Scenario for C11 {
                         }
                         7 => {
                             let index = rng.below(na.max(1));
-                            let rel = gen_relspec(rng, seq);
+                            let mut rel = gen_relspec(rng, seq);
+                            // now and then a replacement that differs from the current alternative only in spelling (architecture
+                            // order, an explicit zero epoch): it compares equal as a dependency and is still a different text
+                            if rng.chance(1, 4) {
+                                if let EntryM::Alts(a) = &model[mi] {
+                                    if let Some(cur) = a.get(index) {
+                                        let mut r = cur.clone();
+                                        let mut changed = false;
+                                        if let Some(archs) = &mut r.archs {
+                                            if archs.len() >= 2 && archs.first() != archs.last() {
+                                                archs.reverse();
+                                                changed = true;
+                                            }
+                                        }
+                                        if !changed {
+                                            if let Some((_, ver)) = &mut r.version {
+                                                if !ver.contains(':') {
+                                                    *ver = format!("0:{ver}");
+                                                    changed = true;
+                                                }
+                                            }
+                                        }
+                                        if changed {
+                                            rel = RelSpec::Parse { text: r.text() };
+                                        }
+                                    }
+                                }
+                            }
                             if let (Some(rm), EntryM::Alts(a)) = (build_rel_model(&rel), &mut model[mi]) {
                                 if index < a.len() {
                                     a[index] = rm;
